@@ -104,6 +104,7 @@ func (t *Transport) RoundTrip(addr string, call *Call) *Call {
 	}
 	conn.RoundTrip(call)
 	conn.lastTime = t.now
+	atomic.AddInt32(&conn.reserved, -1)
 	checkPersistConnErr(call.Error, conn)
 	return call
 }
@@ -127,6 +128,7 @@ func (t *Transport) Go(addr, serviceMethod string, args interface{}, reply inter
 	}
 	call := conn.Go(serviceMethod, args, reply, done)
 	conn.lastTime = t.now
+	atomic.AddInt32(&conn.reserved, -1)
 	checkPersistConnErr(call.Error, conn)
 	return call
 }
@@ -139,6 +141,7 @@ func (t *Transport) Call(addr, serviceMethod string, args interface{}, reply int
 	}
 	err = conn.Call(serviceMethod, args, reply)
 	conn.lastTime = t.now
+	atomic.AddInt32(&conn.reserved, -1)
 	checkPersistConnErr(err, conn)
 	return err
 }
@@ -151,6 +154,7 @@ func (t *Transport) CallWithContext(ctx context.Context, addr string, serviceMet
 	}
 	err = conn.CallWithContext(ctx, serviceMethod, args, reply)
 	conn.lastTime = t.now
+	atomic.AddInt32(&conn.reserved, -1)
 	checkPersistConnErr(err, conn)
 	return err
 }
@@ -163,6 +167,7 @@ func (t *Transport) NewStream(addr, serviceMethod string) (Stream, error) {
 	}
 	stream, err := conn.NewStream(serviceMethod)
 	conn.lastTime = t.now
+	atomic.AddInt32(&conn.reserved, -1)
 	checkPersistConnErr(err, conn)
 	return stream, err
 }
@@ -175,6 +180,7 @@ func (t *Transport) Ping(addr string) error {
 	}
 	err = conn.Ping()
 	conn.lastTime = t.now
+	atomic.AddInt32(&conn.reserved, -1)
 	checkPersistConnErr(err, conn)
 	return err
 }
@@ -193,7 +199,14 @@ func (t *Transport) getConn(addr string) (pc *persistConn, err error) {
 		return nil, ErrDial
 	}
 	t.connsMu.Lock()
-	defer t.connsMu.Unlock()
+	defer func() {
+		if err == nil && pc != nil {
+			// Reserved until the caller has issued its request, so that the
+			// housekeeping does not retire and close the connection in between.
+			atomic.AddInt32(&pc.reserved, 1)
+		}
+		t.connsMu.Unlock()
+	}()
 	if atomic.LoadUint32(&t.closed) > 0 {
 		// A closed Transport neither dials nor starts its housekeeping again.
 		return nil, ErrShutdown
@@ -319,7 +332,7 @@ func (t *Transport) run() {
 				length := len(cs.Conns)
 				for i := 0; i < length; i++ {
 					pc := cs.Conns[i]
-					if pc.lastTime.Add(t.KeepAlive).Before(time.Now()) && pc.NumCalls() == 0 {
+					if pc.lastTime.Add(t.KeepAlive).Before(time.Now()) && pc.NumCalls() == 0 && atomic.LoadInt32(&pc.reserved) == 0 {
 						cs.Delete(i)
 						i--
 						length--
@@ -371,7 +384,7 @@ func (t *Transport) CloseIdleConnections() {
 		length := len(cs.Conns)
 		for i := 0; i < length; i++ {
 			pc := cs.Conns[i]
-			if pc.NumCalls() == 0 {
+			if pc.NumCalls() == 0 && atomic.LoadInt32(&pc.reserved) == 0 {
 				cs.Delete(i)
 				i--
 				length--
@@ -431,6 +444,7 @@ type persistConn struct {
 	mu       sync.Mutex
 	alive    bool
 	lastTime time.Time
+	reserved int32
 }
 
 type conns struct {
